@@ -12,10 +12,10 @@ CHECKS = {
 }
 CHECKS.update({
  "C03": ("exploration", "bounded-exhaustive enumeration of every below-threshold signer subset on the real code + exhaustive tiny-field secrecy count",
-         "Every subset of size 1..t-1 of every (n,t) up to the bound, with honest and lied thresholds in key packages and public key package, through sign / aggregate (3 modes) / reconstruct / hand-assembled signatures, the same drive through the re-randomized entry points (sign_with_randomizer_seed, deprecated sign, aggregate, aggregate_custom) and on key material after dealer refresh / distributed refresh / repair among exactly t and t+1 holders (and after an attempted threshold-lowering refresh with a legacy package); exact Shamir secrecy (every secret equally often for every (t-1)-subset of shares) over ALL polynomials on GF(5), GF(7), GF(11).",
+         "Every subset of size 1..t-1 of every (n,t) up to the bound, with honest and lied thresholds in key packages and public key package, through sign / aggregate (3 modes; the refusal must be IncorrectNumberOfShares in each) / reconstruct / hand-assembled signatures, the same drive through the re-randomized entry points (sign_with_randomizer_seed, deprecated sign, aggregate, aggregate_custom) and on key material after dealer refresh / distributed refresh / repair among exactly t and t+1 holders (and after an attempted threshold-lowering refresh with a legacy package); exact Shamir secrecy (every secret equally often for every (t-1)-subset of shares) over ALL polynomials on GF(5), GF(7), GF(11).",
          "Unforgeability against arbitrary algorithms is a cryptographic assumption and is not decided; what is decided is the refusals, the honest-algorithm attack surface and exact secrecy on the tiny field.", "DESIGN 4 C03"),
  "C04": ("fault_enumeration", "exhaustive fault enumeration (every cheater subset x wrong-share kind x detection mode) with an exact reference predicate; every error vector on the tiny field",
-         "Every non-empty cheater subset of every signer set, seven wrong-share kinds incl. cross-session and cancelling ones, three detection modes plus stand-alone share verification, Taproot in all four (key parity, R parity) branches; the same oracle on key material after dealer refresh (unsorted list) / distributed refresh / repair, with transported and legacy public key packages, through the re-randomized aggregate and through the Taproot tweak wrappers with both key parities; oracle is exact (e_i computed by the harness, numeric identifier order computed independently). On GF(7)/GF(11)/GF(13) EVERY error vector is run.",
+         "Every non-empty cheater subset of every signer set, eight wrong-share kinds incl. cross-session, cancelling and nonce-sign-flipped ones, three detection modes plus stand-alone share verification, Taproot in all four (key parity, R parity) branches; the same oracle on key material after dealer refresh (unsorted list) / distributed refresh / repair, with transported and legacy public key packages, through the re-randomized aggregate and through the Taproot tweak wrappers with both key parities; oracle is exact (e_i computed by the harness, numeric identifier order computed independently). On GF(7)/GF(11)/GF(13) EVERY error vector is run.",
          "Wrong-share values on the real curves are structured kinds, not all values; all values only on the tiny field.", "DESIGN 4 C04"),
  "C06": ("exploration", "bounded-exhaustive shape enumeration + exhaustive single-coordinate tamper enumeration; exhaustive tiny-field polynomials",
          "Every (n,t) up to the bound x 5 identifier kinds x generate/split: every share checked by independent commitment evaluation and Lagrange interpolation, EVERY t-subset reconstructs, every (t-1)-subset does not, EVERY single-coordinate tampering (value, identifier, each commitment entry, truncation, extension) of every share is rejected; u16 boundary and duplicate/mis-sized identifier lists (incl. n + 65536 entries) refused; custom identifier lists whose members differ in ONE bit, for every bit position; n=65535 with default identifiers; all polynomials on GF(5)/GF(7)/GF(11).",
@@ -31,7 +31,7 @@ CHECKS.update({
 })
 CHECKS.update({
  "C12": ("exploration", "exhaustive single-deviation byte-space exploration of every valid encoding (E4) with a re-encode oracle, plus explicit must-reject strings and header enumeration",
-         "For every primitive decoder x 3 decoding paths (own deserialize, serde+postcard, serde+JSON) x several base encodings: every single-byte substitution (hence every bit flip and every tag byte), every length 0..2L; accepted => re-encoding reproduces the input. Explicit negatives (zero, q, q+1, identity spellings, all 8 / 4 torsion points, mixed-order points, x>=p, off-curve x, every SEC1 tag), every version byte, every deviation of the 4-byte ciphersuite id, other suites' ids and encodings, JSON header variants; every primitive in another plausible format or framing (SEC1 uncompressed / hybrid / x-only, R with or without tag, a byte appended / prepended / dropped, encoded twice); value round trips of ~40 wire types x shapes x identifier kinds in postcard and JSON incl. the pre-3.0 public key package.",
+         "For every primitive decoder x 3 decoding paths (own deserialize, serde+postcard, serde+JSON) x several base encodings: every single-byte substitution (hence every bit flip and every tag byte), every length 0..2L; accepted => re-encoding reproduces the input. Explicit negatives (zero where the type excludes it - and acceptance of zero where the type can hold it -, q, q+1, identity spellings, all 8 / 4 torsion points, mixed-order points, x>=p, off-curve x, every SEC1 tag), every version byte and multi-byte / wide-integer version spelling, every deviation of the 4-byte ciphersuite id, other suites' ids and encodings, JSON header variants; every primitive in another plausible format or framing (SEC1 uncompressed / hybrid / x-only, R with or without tag, a byte appended / prepended / dropped, encoded twice); value round trips of ~40 wire types x shapes x identifier kinds in postcard and JSON incl. the pre-3.0 public key package.",
          "Byte strings two or more deviations away from a valid encoding are outside the bound (thorough adds all 2-bit flips for <=33-byte primitives); postcard trailing bytes / non-minimal varints and JSON hex case are the serde back ends' framing and are not alarmed.", "DESIGN 4 C12"),
 })
 CHECKS.update({
@@ -39,7 +39,7 @@ CHECKS.update({
          "Every (n,t) up to the bound x 5 identifier kinds x seeds through each crate's three DKG parts (and the tiny field): all participants hold the identical public package; every key package is consistent; group key = sum of constant-term commitments (Taproot: BIP-341 key-path-only tweak recomputed with libsecp256k1 add_tweak); every entry = summed commitment polynomial evaluated independently; EVERY t-subset interpolates to the key and signs under an independent verifier; a 256-of-257 run with round-one packages over the wire.",
          "Per-participant polynomials are seeded streams.", "DESIGN 4 C07"),
  "C08": ("fault_enumeration", "exhaustive fault enumeration over every (receiver, sender) pair x fault kind x field, against two concurrent honest runs",
-         "Every ordered (receiver, sender) pair x ~30 fault kinds on both DKG rounds (both proof components, proof for every other identifier / other run, every commitment coefficient, lengths t-1/t+1 with and without valid proof, own-identifier filing in three forms and as a surplus entry, missing/surplus, misrouted / cross-run / cross-sender shares, consistently restricted or extended maps, a proof for the negated nonce commitment, a commitment of 65536 + t coefficients with a valid proof and shares on it). The first consuming step must be Err, earlier steps must equal the honest run, culprits must be a subset of {sender} and exactly {sender} for proof and share faults.",
+         "Every ordered (receiver, sender) pair x ~30 fault kinds on both DKG rounds (both proof components, proof for every other identifier / other run, every commitment coefficient, lengths t-1/t+1 with and without valid proof, own-identifier filing in three forms and as a surplus entry, missing/surplus, misrouted / cross-run / cross-sender shares, consistently restricted or extended maps, a proof for the negated nonce commitment, proofs valid for a challenge over other layouts of the same fields, a commitment of 65536 + t coefficients with a valid proof and shares on it). The first consuming step must be Err, earlier steps must equal the honest run, culprits must be a subset of {sender} and exactly {sender} for proof and share faults.",
          "'Attributable' is read as 'the error carries a culprit' (DESIGN 3.8 rule 4).", "DESIGN 4 C08"),
 })
 CHECKS.update({
@@ -68,7 +68,7 @@ CHECKS.update({
 })
 CHECKS.update({
  "C17": ("exploration", "bounded-exhaustive shape enumeration of re-randomized sessions with independent randomizer hash; exhaustive seed-byte / commitment tamper enumeration; C04 fault menu through the re-randomized aggregate",
-         "Every signer subset of every (n,t) up to the bound x randomizer sources (seeded, constant seeds, explicit 0/1/q-1): regenerated = coordinator parameters, signature valid under the randomized and (randomizer != 0) invalid under the original key, randomizer = independently computed hash(seed || independently encoded commitments); every single-byte seed change and every commitment replacement / set change changes the randomizer; a participant with tampered seed or package is exactly the culprit; every cheater subset x 4 kinds x 3 modes and every below-threshold subset through frost-rerandomized's aggregate; every session repeated with the legacy (threshold-less) public key package, packages after binary / JSON transport, cloned parameters and parameters rebuilt from the transported randomizer - identical signature required.",
+         "Every signer subset of every (n,t) up to the bound x randomizer sources (seeded, constant seeds, raw seeds of 0/1/31/33/100 bytes, explicit 0/1/q-1): regenerated = coordinator parameters, signature valid under the randomized and (randomizer != 0) invalid under the original key, randomizer = independently computed hash(seed || independently encoded commitments); every single-byte seed change and every commitment replacement / set change changes the randomizer; a participant with tampered seed or package is exactly the culprit; every cheater subset x 4 kinds x 3 modes and every below-threshold subset through frost-rerandomized's aggregate_custom and its mode-less aggregate (exactly the lowest wrong signer); every session repeated with the legacy (threshold-less) public key package, packages after binary / JSON transport, cloned parameters and parameters rebuilt from the transported randomizer - identical signature required.",
          "Seeds are seeded streams plus constants.", "DESIGN 4 C17"),
  "C18": ("exploration", "branch-forcing enumeration: all 8 (internal, output, R) Y-parity combinations forced by seed search for every shape / subset / script-tree root, judged by libsecp256k1",
          "(n,t) x dealer/DKG x every signer subset x 6 root variants x messages, each in ALL parity combinations (reported per combination): libsecp256k1 verify_schnorr under the output key that libsecp256k1 add_tweak derives with an independently computed TapTweak hash; rejection under the untweaked key; absent root == empty root; honest shares verify; the C04 cheater menu (every cheater subset) in every parity combination; DKG key-path-only tweak; single-signer signing for both key parities; key material after dealer refresh / distributed refresh / repair (crate wrappers): group key unchanged and sessions still valid under the output key of the original internal key.",
@@ -84,7 +84,7 @@ CHECKS.update({
 })
 CHECKS.update({
  "C02": ("exploration", "bounded-exhaustive shape enumeration with byte-for-byte differential comparison of every intermediate against an independent from-scratch reference pinned to the RFC 9591 vectors",
-         "Suites x (n,t) x 5 identifier kinds x dealer/DKG x every signer subset x the message alphabet, nonces from commit() and from the k-th pair of preprocess batches: a transcript of inputs (shares, the 64 random bytes per signer, message) and every intermediate (nonces, commitments, encoded commitment list and order, binding-factor inputs, binding factors, group commitment, challenge, interpolation coefficients, shares, signature) is recomputed by /verif/ref/frostref.py (big-integer curves + hashlib; Taproot flow derived from BIP-340/341) which in the same run reproduces every value of the frozen RFC 9591 appendix vectors; all 65535 u16 identifier encodings and their order; single-signer signatures verified by the reference and reference signatures verified by the library; re-randomized signer entry points (seed-taking and deprecated) return exactly the plain share of the independently randomized key material; Taproot tweak sessions (4 root kinds x both key parities) verified by the reference's BIP-341 / BIP-340.",
+         "Suites x (n,t) x 5 identifier kinds x dealer/DKG x every signer subset x the message alphabet, nonces from commit() and from the k-th pair of preprocess batches: a transcript of inputs (shares, the 64 random bytes per signer, message) and every intermediate (nonces, commitments, encoded commitment list and order, binding-factor inputs, binding factors, group commitment, challenge, interpolation coefficients, shares, signature) is recomputed by /verif/ref/frostref.py (big-integer curves + hashlib; Taproot flow derived from BIP-340/341) which in the same run reproduces every value of the frozen RFC 9591 appendix vectors; all 65535 u16 identifier encodings and their order; single-signer signatures verified by the reference and reference signatures verified by the library; re-randomized signer entry points (seed-taking and deprecated) return exactly the plain share of the independently randomized key material; Taproot tweak sessions (4 root kinds x both key parities) verified by the reference's BIP-341 / BIP-340; aggregate_custom in all three modes returns the bytes of aggregate(); reference signatures also pass batch verification when queued twice.",
          "The Python reference is trusted after its pin; scalars are seeded streams (value-genericity, DESIGN 2).", "DESIGN 4 C02"),
 })
 NOT_APPLICABLE = {}
